@@ -667,7 +667,7 @@ def real_cli(tool, opts, data, env, tmpdir):
     envv.pop("PYTHONUNBUFFERED", None)
     if env.unbuf:
         envv["PYTHONUNBUFFERED"] = "1"
-    envv.update(env_vars(env.envseed))
+    envv.update(env_vars(env.envseed, env.names))
     pyopt = ["-" + "O" * env.opt] if env.opt else []
     try:
         if hasattr(stdin, "read"):
